@@ -176,5 +176,26 @@ pub fn gen(tier: &str, seed: u64) -> Vec<String> {
         h.push(KEv::L(HEv::Tick(100)));
         lines.push(mk_kline("KAN", false, &cfg, &h));
     }
+    // (5) virtual keys next to chords v2 (outside the kanata-level model; judged on the real trace):
+    // all input passes through the chords-v2 queue, where a pending chord holds physical events
+    // back - virtual-key presses AND releases must not wait behind them. `;; held-at-most <code> <n>`
+    // tells the model-free oracle how long the virtual key's output may stay down.
+    for d in [20u32, 50] {
+        let cfg = format!(
+            "(defcfg concurrent-tap-hold yes)\n(defvirtualkeys vm lmet)\n(defsrc x a b c)\n(deflayer l0 (hold-for-duration {d} vm) a b (multi (on-press-fakekey vm press) (on-release-fakekey vm release)))\n(defchordsv2 (a b) y 200 all-released ())\n;; held-at-most 125 {}\n",
+            d + 120
+        );
+        for at in [1u32, 5, d - 1, d, d + 1, d + 40] {
+            // hold-for-duration started, then a chord key pressed (and kept pending) before it expires
+            let h = vec![
+                KEv::L(HEv::Press(0, code("x"))), KEv::L(HEv::Tick(3)), KEv::L(HEv::Release(0, code("x"))), KEv::L(HEv::Tick(at)),
+                KEv::L(HEv::Press(0, code("a"))), KEv::L(HEv::Tick(400)), KEv::L(HEv::Release(0, code("a"))), KEv::L(HEv::Tick(300)),
+            ];
+            lines.push(mk_kline("KAN", false, &cfg, &h));
+            // (a press/release pair driven by a PHYSICAL key is not bounded this way: the physical release
+            // itself waits behind the pending chord key, as chords v2 documents)
+        }
+    }
+
     lines
 }
